@@ -203,9 +203,9 @@ Proof. exact index_not_usize_rejected. Qed.
 Print Assumptions C17_checker_rejects_index_not_usize.
 
 (* the checker is NOT sound for the reference rules (the recorded re-typing defect of unsuffixed
-   literals, known finding of C05): four accepted programs whose typed tree Wt.v rejects *)
+   literals, known finding of C05): three accepted programs whose typed tree Wt.v rejects (a fourth, `let y = 1 + 2 + x; y`, was repaired by fix 64720dd: compound expressions are constrained deeply) *)
 Theorem C17_checker_soundness_refuted :
-  forall P, In P [P_retype; P_retype2; P_retype3; P_big] ->
+  forall P, In P [P_retype; P_retype3; P_big] ->
   exists P', check_program ex_intern 50 P = COk P' /\ Wt.wt_program P' = false.
 Proof. exact check_sound_refuted. Qed.
 Print Assumptions C17_checker_soundness_refuted.
